@@ -172,6 +172,43 @@ fn free_running(sh: &mut Shard, solos: &[String], statics: &[String]) {
     }
 }
 
+/// Every text of the profile table (c), in a fixed order.
+pub fn for_each_table_text(tier: Tier, seed: u64, f: &mut dyn FnMut(&str)) {
+    for prog in table_programs(tier, seed) {
+        f(&printer::program(&prog));
+    }
+    for k in 57..=64u32 {
+        for off in [-2i128, -1, 0, 1, 2] {
+            let v = (1i128 << k) + off;
+            for text in [v.to_string(), format!("-{v}"), format!("stel x = {v}; x + 0"), format!("int(\"{v}\")"), format!("int({v}.0)")] {
+                f(&text);
+            }
+        }
+    }
+    crate::compose::for_each(2, &mut |_, prog| {
+        f(&printer::program(prog));
+        true
+    });
+    for sl in slices::slices().into_iter().filter(|s| matches!(s.name, "builtin" | "heap-local" | "gc" | "arith")) {
+        let mut dummy = Shard::new("C16", crate::shard::Cfg { tier: Tier::Quick, seed }, 0, 1);
+        slices::for_each_program(&sl, Tier::Quick, &mut dummy, &mut |_, prog| {
+            f(&printer::program(prog));
+            true
+        });
+    }
+}
+
+/// `nlmc table16 <tier> <seed> <file>`: writes "text<TAB>outcome" for every table entry in this build.
+pub fn table_dump_main(tier: Tier, seed: u64, path: &str) {
+    crate::outcome::install_quiet_panic_hook();
+    let mut out = String::new();
+    for_each_table_text(tier, seed, &mut |text| {
+        let o = sched::solo(text, 100_000);
+        out.push_str(&format!("{}\t{}\n", text.replace('\n', "\\n").replace('\t', "\\t"), render(&o).replace('\n', "\\n")));
+    });
+    let _ = std::fs::write(path, out);
+}
+
 fn table_programs(tier: Tier, seed: u64) -> Vec<Vec<Stmt>> {
     let lat = lattice(tier, seed);
     // a 40-value subset that includes both range ends and the values next to them
@@ -300,55 +337,18 @@ fn run(sh: &mut Shard) {
         }
     }
     // (c) configurations: the (program, outcome) table of this build; compared across builds by the parent
-    for prog in table_programs(tier, sh.cfg.seed) {
-        if !sh.mine() {
-            continue;
-        }
-        let text = printer::program(&prog);
-        sh.begin(&|| text.clone());
-        sh.count(&format!("table:{profile}"));
-        let o = sched::solo(&text, 100_000);
-        sh.pair(&(text.as_str(), render(&o)));
-        sh.nontrivial(&(profile, "table", &text));
-    }
-    // ... and of every ordered pair of constructs, the builtin slice and the heap slice
-    crate::compose::for_each(2, &mut |_, prog| {
-        if !sh.mine() {
-            return sh.running();
-        }
-        let text = printer::program(prog);
-        sh.begin(&|| text.clone());
-        sh.count(&format!("table:{profile}"));
-        let o = sched::solo(&text, 100_000);
-        sh.pair(&(text.as_str(), render(&o)));
-        sh.running()
-    });
-    for sl in slices::slices().into_iter().filter(|s| matches!(s.name, "builtin" | "heap-local" | "gc")) {
-        slices::for_each_program(&sl, Tier::Quick, sh, &mut |sh, prog| {
+    {
+        let mut texts: Vec<String> = Vec::new();
+        for_each_table_text(tier, sh.cfg.seed, &mut |t| texts.push(t.to_string()));
+        for text in texts {
             if !sh.mine() {
-                return sh.running();
+                continue;
             }
-            let text = printer::program(prog);
             sh.begin(&|| text.clone());
             sh.count(&format!("table:{profile}"));
             let o = sched::solo(&text, 100_000);
             sh.pair(&(text.as_str(), render(&o)));
-            sh.running()
-        });
-    }
-    let arith = slices::slices().into_iter().find(|s| s.name == "arith");
-    if let Some(sl) = arith {
-        slices::for_each_program(&sl, Tier::Quick, sh, &mut |sh, prog| {
-            if !sh.mine() {
-                return sh.running();
-            }
-            let text = printer::program(prog);
-            sh.begin(&|| text.clone());
-            sh.count(&format!("table:{profile}"));
-            let o = sched::solo(&text, 100_000);
-            sh.pair(&(text.as_str(), render(&o)));
-            sh.running()
-        });
+        }
     }
     // (b) schedules
     let bound = if tier == Tier::Quick { 2 } else { 3 };
@@ -508,7 +508,16 @@ fn replay(sh: &mut Shard, case: &Value) {
             }
         }
     } else if case["table"].is_string() {
-        println!("profile tables differ; run `nlmc table16` under both builds and compare");
+        if let Some(d) = case["differing_programs"].as_array() {
+            for x in d {
+                let text = x["program"].as_str().unwrap_or("");
+                let here = render(&sched::solo(text, 100_000));
+                println!(">>> {text}\n    this build now: {here}\n    recorded release: {}\n    recorded debug:   {}", x["release"], x["debug"]);
+                if x["release"] != x["debug"] && (Some(here.as_str()) == x["release"].as_str() || Some(here.as_str()) == x["debug"].as_str()) {
+                    sh.violation("profiles", case.clone(), format!("{text:?} evaluates differently in the two builds"));
+                }
+            }
+        }
     }
 }
 
